@@ -37,7 +37,8 @@ Qed.
    suspended under every event that does not drop the handle carrying its
    token or the barrier still holding it undelivered, and is Running right
    after such a drop; and in every reachable state a suspended source does have
-   such a token (some DropHandle / DropBarrier releases it). *)
+   such a token (some DropHandle / DropBarrier releases it), exactly one, and
+   there are no tokens for sources that are not suspended. *)
 Theorem suspend_until_release : forall (V : Type),
   (forall s src v b, sget (srcs s) src = Running -> first_match V (regs s) v = Some b -> b_react b = Suspend ->
      let s' := fst (step V s (Trigger src v)) in
@@ -49,13 +50,20 @@ Theorem suspend_until_release : forall (V : Type),
      sget (srcs (fst (step V s e))) src = Suspended) /\
   (forall s src e, releases V s src e = true -> sget (srcs (fst (step V s e))) src = Running) /\
   (forall es src, let s := final V (init V) es in
-     sget (srcs s) src = Suspended -> In src (tokens V s) /\ exists e, releases V s src e = true).
+     sget (srcs s) src = Suspended -> In src (tokens V s) /\ exists e, releases V s src e = true) /\
+  (forall es, let s := final V (init V) es in
+     NoDup (tokens V s) /\ forall src, In src (tokens V s) <-> sget (srcs s) src = Suspended).
 Proof.
   intros V. split; [exact (suspend_lemma V)|]. split; [exact (stays_suspended V)|]. split; [exact (release_runs V)|].
-  intros es src s S.
-  pose proof (run_regok V es (init V) (regok_init V)) as OK.
-  pose proof (run_tokinv V es (init V) (regok_init V) (tokinv_init V) src S) as T.
-  split; [exact T|]. now apply token_usable.
+  split.
+  - intros es src s S.
+    pose proof (run_regok V es (init V) (regok_init V)) as OK.
+    pose proof (run_tokinv V es (init V) (regok_init V) (tokinv_init V) src S) as T.
+    split; [exact T|]. now apply token_usable.
+  - intros es s.
+    destruct (run_tokinv2 V es (init V) (regok_init V) (tokinv2_init V)) as [ND SU].
+    split; [exact ND|]. intros src. split; [apply SU|].
+    apply (run_tokinv V es (init V) (regok_init V) (tokinv_init V)).
 Qed.
 
 (* Noop: the call is queued with no release token and no source changes state
